@@ -381,7 +381,8 @@ impl G<'_, '_> {
     }
 }
 
-pub const TRIVIA: [&str; 8] = [" ", "\n", ",", "\t", " # c\n", "\u{FEFF}", "\r\n", ""];
+// every line terminator of the spec (LF, CRLF, a lone CR), also as the end of a comment
+pub const TRIVIA: [&str; 12] = [" ", "\n", ",", "\t", " # c\n", "\u{FEFF}", "\r\n", "", "\r", " # c\r", " # c\r\n", "#\r#\n"];
 pub const TAILS: [&str; 6] = ["\n", "", " # c", "\n\n", " ,", "\u{FEFF}"];
 pub const HEADS: [&str; 5] = ["", "\u{FEFF}", "# c\n", "\n", "#\n"];
 pub const STYLES: [StrStyle; 6] = [
